@@ -222,3 +222,69 @@ func (f *Feeder) Step(max int) bool {
 func Describe(m sim.Msg) string {
 	return fmt.Sprintf("%T id=%s %s->%s", m, m.Meta().ID, m.Meta().Src, m.Meta().Dst)
 }
+
+type sendHook struct{ f func(m sim.Msg) }
+
+func (h sendHook) Func(ctx sim.HookCtx) {
+	if ctx.Pos == sim.HookPosPortMsgSend {
+		h.f(ctx.Item.(sim.Msg))
+	}
+}
+
+// OnSend calls f at the instant the component pushes a message into the
+// outgoing buffer of one of its ports (exact time of the component's action,
+// before the environment takes the message off the wire).
+func OnSend(p sim.Port, f func(m sim.Msg)) { p.AcceptHook(sendHook{f}) }
+
+// FlushCtl drives the DiscardTransactions -> NotifyDone -> Restart ->
+// NotifyDone protocol used by the command processor on ROBs and address
+// translators. The flush is sent at cycle At (0 = never).
+type FlushCtl struct {
+	W            *World
+	Port         sim.Port
+	Name         sim.RemotePort
+	At           int
+	RestartDelay int
+	Acks         int
+	sent         bool
+	feed         *Feeder
+	sink         *Sink
+	MkDiscard    func() sim.Msg
+	MkRestart    func() sim.Msg
+	OnRestarted  func()
+}
+
+// Active reports whether a flush has been sent and the restart not yet acknowledged.
+func (f *FlushCtl) Active() bool { return f.sent && f.Acks < 2 }
+
+// Step advances the protocol; returns true while work is pending.
+func (f *FlushCtl) Step() bool {
+	if f.At <= 0 {
+		return false
+	}
+	if f.feed == nil {
+		f.feed = &Feeder{W: f.W, Port: f.Port, Tag: "ctl"}
+		f.sink = &Sink{W: f.W, Port: f.Port, Tag: "ctl", NoChoice: true}
+		f.sink.Handle = func(m sim.Msg) {
+			f.Acks++
+			if f.Acks == 1 {
+				f.feed.Add(f.MkRestart(), false)
+				f.feed.Q[len(f.feed.Q)-1].Ready += f.RestartDelay
+			} else if f.Acks == 2 && f.OnRestarted != nil {
+				f.OnRestarted()
+			}
+		}
+	}
+	pending := false
+	if !f.sent {
+		if f.W.Cycle() >= f.At {
+			f.sent = true
+			f.feed.Add(f.MkDiscard(), false)
+			f.feed.Q[len(f.feed.Q)-1].Ready = f.W.Cycle()
+		}
+		pending = true
+	}
+	pending = f.sink.Step(1) || pending
+	pending = f.feed.Step(1) || pending
+	return pending || f.Active()
+}
